@@ -152,6 +152,38 @@ Theorem C04_abf_state_after_restart :
 Proof. exact abf_state_after_restart_const. Qed.
 Print Assumptions C04_abf_state_after_restart.
 
+(* T1 across a load of a state file into the RUNNING instance, after the step i0 made from any state s: the grids are
+   the data set d plus the samples delivered after the load; in the lagged convention the first of them is the force of
+   step i0 itself (exerted before the load, delivered after it, attributed to the bin of i0). *)
+Theorem C04_abf_state_after_reload :
+  forall (c : @abf_cfg R) (s : @abf_state R) (i0 : @abf_in R) (d : @dataset R) (h : list (@abf_in R)) (b : idx),
+    wf_cfg c -> (c_hidej c = true -> Forall (fun i => i_apply i = i_apply i0) h) ->
+    let so := abf_step Rops c s i0 in
+    let s' := abf_set_grids Rops c (fst so) d 0 in
+    let p := (i0, snd so) in
+    let r := abf_run_from Rops c s' h in
+    let tr := trace_from Rops c s' h in
+    let A := attributed_of c (if c_same_step c then deliveries_same Rops c tr else deliveries_lag Rops c (Some p) tr) in
+    s_cnt (fst r) b = (fst d b + cnt_of b A)%Z /\
+    forall k, (k < c_nd c)%nat ->
+      vget Rops (s_sum (fst r) b) k = (vget Rops (snd d b) k * IZR (fst d b) - fsum_of Rops k b A)%R.
+Proof. exact abf_state_after_reload. Qed.
+Print Assumptions C04_abf_state_after_reload.
+
+(* T1 for a bias DEFINED WHILE THE SIMULATION IS RUNNING (a later `config`; the engine's last step had
+   step_relative = rel): the grids are the samples attributed in the bias's own history; nothing that happened before it
+   existed enters a bin (force_bin starts outside of the grid: fix 3cb1a6bc). *)
+Theorem C04_abf_state_late_definition :
+  forall (c : @abf_cfg R) (rel : Z) (h : list (@abf_in R)) (b : idx) (a : bool),
+    wf_cfg c -> apply_const a h -> (0 < c_nd c)%nat ->
+    let s0 := abf_init_late Rops c rel in
+    let r := abf_run_from Rops c s0 h in
+    let S := attributed Rops c (trace_from Rops c s0 h) in
+    s_cnt (fst r) b = cnt_of b S /\
+    forall k, (k < c_nd c)%nat -> vget Rops (s_sum (fst r) b) k = (- fsum_of Rops k b S)%R.
+Proof. exact abf_state_late_definition. Qed.
+Print Assumptions C04_abf_state_late_definition.
+
 (* ---- T2'.  T1 and T2 together, without reference to the stored arrays: for every history h and next
    step i, the ABF force of that step is [spec_force_samples] of the samples attributed in h ++ [i]:
    ramp(N_b) * (- arithmetic mean of the N_b sample forces of the current bin b), minus the grid average of
